@@ -324,6 +324,9 @@ func tableValueOK(p *Prog, fn *FuncInfo, x ast.Expr, get *FuncInfo, depth int) (
 		}
 		for _, d := range ds {
 			if d.rhs == nil {
+				if _, isSpec := d.node.(*ast.ValueSpec); isSpec {
+					continue // `var table int`: the zero value is the constant 0 (the main table)
+				}
 				return false, "multi-value definition of " + t.Name
 			}
 			if ok, why := tableValueOK(p, fn, d.rhs, get, depth+1); !ok {
